@@ -127,6 +127,14 @@ func NewWorker(u *Universe, out io.Writer) (*Worker, error) {
 		return nil, err
 	}
 	w.worlds = append(w.worlds, &world{name: "regin", root: gw.Root})
+	// reflection again, one of the objects handed out as a value of a Go type that no GraphQL type is bound to (where
+	// another Go type is bound already): an error at most, never a crash
+	gw, err = gq.NewReflWorld(&u.Exec, gq.ListIfaceSlice, gq.BindRegister)
+	if err != nil {
+		return nil, err
+	}
+	gw.Strange = "a2"
+	w.worlds = append(w.worlds, &world{name: "stranger", root: gw.Root})
 	// a root that has the schema but neither a root object nor a root resolver
 	nores := ggql.NewRoot(nil)
 	if err = nores.ParseString(u.Exec.SDL()); err != nil {
